@@ -31,6 +31,8 @@ type IVal struct {
 	Ref  string // base key of the struct ('p', 't')
 	Tag  string // for unknowns: "len:<key>" = length of an input slice
 	Typ  *types.Basic
+	Dyn  types.Type // dynamic type of an integer held in an interface (named type)
+	Lib  bool       // opaque value made by errors.New / fmt.Errorf
 }
 
 func (v IVal) known() bool { return v.K == 'i' || v.K == 'b' }
@@ -57,6 +59,7 @@ func (v IVal) String() string {
 type ICrash struct {
 	Node ast.Node
 	Msg  string
+	F    *Func // function that contains Node
 }
 
 // IExit is a function exit.
@@ -65,6 +68,7 @@ type IExit struct {
 	Tainted bool
 	Trace   []string
 	Heap    map[string]IVal
+	Vals    []IVal // values of the results
 }
 
 // IResult of one run.
@@ -112,7 +116,15 @@ type Interp struct {
 	Stop     func(n ast.Node) bool
 	MaxSteps int
 	Sums     func(cf *Func) *Summary
+	// NoInline keeps a module function opaque (its results are unknown).
+	// By default every declared function of the analysed function's package
+	// is evaluated in line (up to a small depth).
+	NoInline func(cf *Func) bool
 
+	cf     *Func  // function of the current frame
+	prefix string // heap key prefix of the current frame
+	depth  int
+	exits  *[]frameExit
 	info   *types.Info
 	bnd    *Bounds
 	g      *Graph
@@ -121,6 +133,7 @@ type Interp struct {
 	inputs map[types.Object]bool
 	brs    map[*cfg.Block]Branch
 	vkeys  map[types.Object]string
+	seenFn map[*Func]bool
 }
 
 type istate struct {
@@ -129,6 +142,7 @@ type istate struct {
 	heap    map[string]IVal
 	tainted bool
 	trace   []string
+	calls   map[*ast.CallExpr][]IVal // results of calls of the current node evaluated in line
 }
 
 func (s *istate) fork() *istate {
@@ -136,7 +150,21 @@ func (s *istate) fork() *istate {
 	for k, v := range s.heap {
 		h[k] = v
 	}
-	return &istate{blk: s.blk, idx: s.idx, heap: h, tainted: s.tainted, trace: append([]string(nil), s.trace...)}
+	n := &istate{blk: s.blk, idx: s.idx, heap: h, tainted: s.tainted, trace: append([]string(nil), s.trace...)}
+	if len(s.calls) > 0 {
+		n.calls = make(map[*ast.CallExpr][]IVal, len(s.calls))
+		for k, v := range s.calls {
+			n.calls[k] = v
+		}
+	}
+	return n
+}
+
+// frameExit is how one path left a function frame.
+type frameExit struct {
+	st   *istate
+	ret  *ast.ReturnStmt
+	vals []IVal
 }
 
 type crashErr struct {
@@ -146,11 +174,25 @@ type crashErr struct {
 
 type unsupportedErr struct{ what string }
 
+// enter switches the per-function tables to f.
+func (ip *Interp) enter(f *Func) {
+	ip.cf = f
+	ip.info = f.Info()
+	ip.g = ip.P.Graph(f)
+	ip.bnd = AnalyseBounds(ip.P, f)
+	if !ip.seenFn[f] {
+		ip.seenFn[f] = true
+		ast.Inspect(f.Body, func(n ast.Node) bool {
+			if rs, ok := n.(*ast.RangeStmt); ok {
+				ip.ranges[rs.X] = rs
+			}
+			return true
+		})
+	}
+}
+
 // Run evaluates the function from its entry.
 func (ip *Interp) Run() *IResult {
-	ip.info = ip.F.Info()
-	ip.g = ip.P.Graph(ip.F)
-	ip.bnd = AnalyseBounds(ip.P, ip.F)
 	if ip.MaxSteps == 0 {
 		ip.MaxSteps = 400000
 	}
@@ -158,12 +200,9 @@ func (ip *Interp) Run() *IResult {
 	ip.ranges = map[ast.Node]*ast.RangeStmt{}
 	ip.brs = map[*cfg.Block]Branch{}
 	ip.vkeys = map[types.Object]string{}
-	ast.Inspect(ip.F.Body, func(n ast.Node) bool {
-		if rs, ok := n.(*ast.RangeStmt); ok {
-			ip.ranges[rs.X] = rs
-		}
-		return true
-	})
+	ip.seenFn = map[*Func]bool{}
+	ip.prefix, ip.depth = "", 0
+	ip.enter(ip.F)
 	ip.inputs = map[types.Object]bool{}
 	for _, p := range ip.F.Params() {
 		ip.inputs[p] = true
@@ -181,6 +220,18 @@ func (ip *Interp) Run() *IResult {
 		return ip.res
 	}
 	start := &istate{blk: ip.g.G.Blocks[0], heap: map[string]IVal{}}
+	for _, e := range ip.runFrame(start) {
+		ip.res.Exits = append(ip.res.Exits, IExit{Ret: e.ret, Tainted: e.st.tainted, Trace: e.st.trace, Heap: e.st.heap, Vals: e.vals})
+	}
+	return ip.res
+}
+
+// runFrame runs the current function from st to all its exits.
+func (ip *Interp) runFrame(start *istate) []frameExit {
+	var exits []frameExit
+	saved := ip.exits
+	ip.exits = &exits
+	defer func() { ip.exits = saved }()
 	stack := []*istate{start}
 	visited := map[string]bool{}
 	for len(stack) > 0 {
@@ -193,7 +244,7 @@ func (ip *Interp) Run() *IResult {
 		next := ip.runBlock(st, visited)
 		stack = append(stack, next...)
 	}
-	return ip.res
+	return exits
 }
 
 func fnv(h uint64, s string) uint64 {
@@ -262,12 +313,10 @@ func (ip *Interp) runBlock(st *istate, visited map[string]bool) (next []*istate)
 			switch e := r.(type) {
 			case crashErr:
 				if !st.tainted {
-					ip.res.Crashes = append(ip.res.Crashes, ICrash{Node: e.node, Msg: e.msg})
+					ip.res.Crashes = append(ip.res.Crashes, ICrash{Node: e.node, Msg: e.msg, F: ip.cf})
 				}
-				next = nil
 			case unsupportedErr:
 				ip.res.Unsupported = append(ip.res.Unsupported, e.what)
-				next = nil
 			default:
 				panic(r)
 			}
@@ -288,32 +337,41 @@ func (ip *Interp) runBlock(st *istate, visited map[string]bool) (next []*istate)
 		ip.res.Steps++
 		if ip.Stop != nil && ip.Stop(node) {
 			ip.res.Stops = append(ip.res.Stops, IStop{Node: node, Tainted: st.tainted, Trace: st.trace})
-			return nil
+			return next
 		}
+		// calls of module functions inside the node are evaluated first; when
+		// a callee has several outcomes the other states resume at this node
+		states := ip.inlineCalls(st, node)
+		if len(states) == 0 {
+			return next
+		}
+		for _, s := range states[1:] {
+			s.blk, s.idx = blk, i
+			next = append(next, s)
+		}
+		st = states[0]
 		if ret, ok := node.(*ast.ReturnStmt); ok {
-			for _, r := range ret.Results {
-				ip.eval(st, r)
-			}
-			ip.res.Exits = append(ip.res.Exits, IExit{Ret: ret, Tainted: st.tainted, Trace: st.trace, Heap: st.heap})
-			return nil
+			*ip.exits = append(*ip.exits, frameExit{st: st, ret: ret, vals: ip.returnValues(st, ret)})
+			return next
 		}
 		ip.exec(st, node)
+		st.calls = nil
 	}
 	switch len(blk.Succs) {
 	case 0:
 		if !blk.Live {
-			return nil
+			return next
 		}
-		ip.res.Exits = append(ip.res.Exits, IExit{Tainted: st.tainted, Trace: st.trace, Heap: st.heap})
-		return nil
+		*ip.exits = append(*ip.exits, frameExit{st: st, vals: ip.returnValues(st, nil)})
+		return next
 	case 1:
 		st.blk, st.idx = blk.Succs[0], 0
-		return []*istate{st}
+		return append(next, st)
 	}
 	ip.res.Steps++
 	if last < n && ip.Stop != nil && ip.Stop(blk.Nodes[last]) {
 		ip.res.Stops = append(ip.res.Stops, IStop{Node: blk.Nodes[last], Tainted: st.tainted, Trace: st.trace})
-		return nil
+		return next
 	}
 	var outs []condOut
 	switch br.Kind {
@@ -323,13 +381,16 @@ func (ip *Interp) runBlock(st *istate, visited map[string]bool) (next []*istate)
 		if br.Tag == nil {
 			outs = ip.cond(st, br.Cond)
 		} else {
-			a, b := ip.eval(st, br.Tag), ip.eval(st, br.Case)
-			outs = ip.decide(st, ip.compare(token.EQL, a, b, nil))
+			for _, s := range ip.inlineCalls(st, br.Case) {
+				a, b := ip.eval(s, br.Tag), ip.eval(s, br.Case)
+				outs = append(outs, ip.decide(s, ip.compare(token.EQL, a, b, nil))...)
+				s.calls = nil
+			}
 		}
 	case BrRange:
 		outs = ip.rangeStep(st, br.Range)
 	default:
-		panic(unsupportedErr{"branch kind at " + ip.F.At(blk.Nodes[len(blk.Nodes)-1])})
+		panic(unsupportedErr{"branch kind at " + ip.cf.At(blk.Nodes[len(blk.Nodes)-1])})
 	}
 	for _, o := range outs {
 		s := o.st
@@ -390,17 +451,21 @@ func (ip *Interp) cond(st *istate, e ast.Expr) []condOut {
 			return res
 		}
 	}
-	v := ip.eval(st, e)
-	outs := ip.decide(st, v)
+	var outs []condOut
+	for _, s := range ip.inlineCalls(st, e) {
+		v := ip.eval(s, e)
+		s.calls = nil
+		outs = append(outs, ip.decide(s, v)...)
+	}
 	return outs
 }
 
 func (ip *Interp) rangeStep(st *istate, rs *ast.RangeStmt) []condOut {
-	ck := fmt.Sprintf("range@%d", rs.Pos())
+	ck := fmt.Sprintf("%srange@%d", ip.prefix, rs.Pos())
 	cnt := st.heap[ck]
 	lim := st.heap[ck+".n"]
 	if cnt.K != 'i' || lim.K != 'i' {
-		panic(unsupportedErr{"range over a value of unknown length at " + ip.F.At(rs)})
+		panic(unsupportedErr{"range over a value of unknown length at " + ip.cf.At(rs)})
 	}
 	if cnt.I >= lim.I {
 		return []condOut{{st, false}}
@@ -420,11 +485,14 @@ func (ip *Interp) rangeStep(st *istate, rs *ast.RangeStmt) []condOut {
 // locations
 
 func (ip *Interp) varKey(o types.Object) string {
-	if k, ok := ip.vkeys[o]; ok {
-		return k
+	k, ok := ip.vkeys[o]
+	if !ok {
+		k = "v" + strconv.Itoa(int(o.Pos())) + ":" + o.Name()
+		ip.vkeys[o] = k
 	}
-	k := "v" + strconv.Itoa(int(o.Pos())) + ":" + o.Name()
-	ip.vkeys[o] = k
+	if ip.prefix != "" {
+		return ip.prefix + k
+	}
 	return k
 }
 
@@ -504,7 +572,7 @@ func (ip *Interp) load(st *istate, key, pretty string, t types.Type, e ast.Expr)
 			if iv, ok := ip.Input(pretty, t); ok {
 				if iv.K == 'i' {
 					iv.Typ = basicInt(t)
-					iv.I = wrap(iv.I, iv.Typ, ip.F.Pkg.TypesSizes)
+					iv.I = wrap(iv.I, iv.Typ, ip.cf.Pkg.TypesSizes)
 				}
 				st.heap[key] = iv
 				return iv
@@ -600,6 +668,13 @@ func (ip *Interp) store(st *istate, lhs ast.Expr, v IVal) {
 	}
 	if ix, ok := lhs.(*ast.IndexExpr); ok {
 		ip.eval(st, ix) // bounds check
+		if base := ip.eval(st, ix.X); base.K == 's' && base.Ref != "" {
+			if idx := ip.eval(st, ix.Index); idx.K == 'i' {
+				st.heap[fmt.Sprintf("%s[%d]", base.Ref, idx.I)] = v
+			} else {
+				ip.dropElems(st, base.Ref)
+			}
+		}
 		if ip.OnStore != nil {
 			ip.OnStore(ix, ip.eval(st, ix.Index), v, st.tainted)
 		}
@@ -635,6 +710,13 @@ func (ip *Interp) exec(st *istate, n ast.Node) {
 				switch r := ast.Unparen(y.Rhs[0]).(type) {
 				case *ast.CallExpr:
 					vals = ip.call(st, r)
+				case *ast.TypeAssertExpr:
+					if r.Type != nil && len(y.Lhs) == 2 {
+						val, ok := ip.assertType(ip.eval(st, r.X), ip.info.TypeOf(r.Type))
+						vals = []IVal{val, ok}
+					} else {
+						ip.eval(st, r)
+					}
 				default:
 					ip.eval(st, r)
 				}
@@ -658,7 +740,7 @@ func (ip *Interp) exec(st *istate, n ast.Node) {
 				return
 			}
 		}
-		panic(unsupportedErr{"assignment " + ip.F.Str(y)})
+		panic(unsupportedErr{"assignment " + ip.cf.Str(y)})
 	case *ast.IncDecStmt:
 		a := ip.eval(st, y.X)
 		op := token.ADD
@@ -698,7 +780,7 @@ func (ip *Interp) exec(st *istate, n ast.Node) {
 		// switch tags, range operands and key/value definitions appear as bare expressions
 		if rs, ok := ip.ranges[y]; ok {
 			v := ip.eval(st, y)
-			ck := fmt.Sprintf("range@%d", rs.Pos())
+			ck := fmt.Sprintf("%srange@%d", ip.prefix, rs.Pos())
 			st.heap[ck] = IVal{K: 'i', I: 0}
 			switch {
 			case v.K == 's' && v.L >= 0:
@@ -719,7 +801,7 @@ func (ip *Interp) exec(st *istate, n ast.Node) {
 		}
 		ip.eval(st, y)
 	default:
-		panic(unsupportedErr{fmt.Sprintf("%T at %s", n, ip.F.At(n))})
+		panic(unsupportedErr{fmt.Sprintf("%T at %s", n, ip.cf.At(n))})
 	}
 }
 
@@ -798,7 +880,7 @@ func (ip *Interp) arith(op token.Token, a, b IVal, bt *types.Basic, at ast.Node)
 	default:
 		return IVal{K: 'u', Typ: bt}
 	}
-	return IVal{K: 'i', I: wrap(r, bt, ip.F.Pkg.TypesSizes), Typ: bt}
+	return IVal{K: 'i', I: wrap(r, bt, ip.cf.Pkg.TypesSizes), Typ: bt}
 }
 
 func (ip *Interp) compare(op token.Token, a, b IVal, at ast.Expr) IVal {
@@ -807,7 +889,7 @@ func (ip *Interp) compare(op token.Token, a, b IVal, at ast.Expr) IVal {
 		switch v.K {
 		case 'n':
 			return true, true
-		case 'e', 'p', 'f':
+		case 'e', 'p', 'f', 'i', 'b':
 			return false, true
 		case 's':
 			return false, false
@@ -867,7 +949,25 @@ func b2i(b bool) int64 {
 	return 0
 }
 
+// eval evaluates e and maintains the dynamic type of integers of named types
+// (needed for type assertions on interface values).
 func (ip *Interp) eval(st *istate, e ast.Expr) IVal {
+	v := ip.eval0(st, e)
+	if v.K == 'i' {
+		if t := ip.info.TypeOf(e); t != nil {
+			if _, isIface := t.Underlying().(*types.Interface); !isIface {
+				if n, ok := types.Unalias(t).(*types.Named); ok {
+					v.Dyn = n
+				} else {
+					v.Dyn = nil
+				}
+			}
+		}
+	}
+	return v
+}
+
+func (ip *Interp) eval0(st *istate, e ast.Expr) IVal {
 	info := ip.info
 	if ip.Override != nil {
 		if v, ok := ip.Override[e]; ok {
@@ -953,7 +1053,7 @@ func (ip *Interp) eval(st *istate, e ast.Expr) IVal {
 			bt := basicInt(info.TypeOf(x))
 			return ip.arith(token.XOR, IVal{K: 'i', I: -1, Typ: bt}, ip.eval(st, x.X), bt, x)
 		case token.ARROW:
-			panic(unsupportedErr{"channel receive at " + ip.F.At(x)})
+			panic(unsupportedErr{"channel receive at " + ip.cf.At(x)})
 		}
 		return IVal{K: 'u'}
 	case *ast.BinaryExpr:
@@ -1006,6 +1106,12 @@ func (ip *Interp) eval(st *istate, e ast.Expr) IVal {
 		if idx.K == 'i' && idx.I < 0 {
 			panic(crashErr{x, fmt.Sprintf("index out of range [%d]", idx.I)})
 		}
+		// remembered element of a literal
+		if base.K == 's' && base.Ref != "" && idx.K == 'i' {
+			if v, ok := st.heap[fmt.Sprintf("%s[%d]", base.Ref, idx.I)]; ok {
+				return v
+			}
+		}
 		// element of a constant package-level table
 		if idx.K == 'i' {
 			if tab := ip.bnd.constTable(x.X); tab != nil {
@@ -1020,7 +1126,7 @@ func (ip *Interp) eval(st *istate, e ast.Expr) IVal {
 				if v, ok := ip.Input(key, info.TypeOf(x)); ok {
 					if v.K == 'i' {
 						v.Typ = basicInt(info.TypeOf(x))
-						v.I = wrap(v.I, v.Typ, ip.F.Pkg.TypesSizes)
+						v.I = wrap(v.I, v.Typ, ip.cf.Pkg.TypesSizes)
 					}
 					return v
 				}
@@ -1030,7 +1136,7 @@ func (ip *Interp) eval(st *istate, e ast.Expr) IVal {
 	case *ast.SliceExpr:
 		base := ip.eval(st, x.X)
 		if x.Slice3 {
-			panic(unsupportedErr{"three-index slice at " + ip.F.At(x)})
+			panic(unsupportedErr{"three-index slice at " + ip.cf.At(x)})
 		}
 		var lo, hi IVal
 		lo = IVal{K: 'i'}
@@ -1075,23 +1181,32 @@ func (ip *Interp) eval(st *istate, e ast.Expr) IVal {
 			if cp >= 0 {
 				c = cp - lo.I
 			}
-			return IVal{K: 's', L: hi.I - lo.I, C: c, Env: base.Env}
+			ref := ""
+			if lo.I == 0 {
+				ref = base.Ref
+			}
+			return IVal{K: 's', L: hi.I - lo.I, C: c, Env: base.Env, Ref: ref}
 		}
 		return IVal{K: 's', L: -1, C: -1, Env: base.Env}
 	case *ast.CompositeLit:
 		t := info.TypeOf(x)
 		switch u := t.Underlying().(type) {
 		case *types.Slice:
+			// the elements of a literal are remembered (until something
+			// that cannot be followed writes to the slice)
+			key := fmt.Sprintf("elts%d#%d", x.Pos(), ip.depth)
+			ip.dropElems(st, key)
 			n := int64(0)
 			for _, el := range x.Elts {
 				if kv, ok := el.(*ast.KeyValueExpr); ok {
 					ip.eval(st, kv.Value)
+					ip.dropElems(st, key)
 					return IVal{K: 's', L: -1, C: -1}
 				}
-				ip.eval(st, el)
+				st.heap[fmt.Sprintf("%s[%d]", key, n)] = ip.eval(st, el)
 				n++
 			}
-			return IVal{K: 's', L: n, C: n}
+			return IVal{K: 's', L: n, C: n, Ref: key}
 		case *types.Struct:
 			key := fmt.Sprintf("lit%d", x.Pos())
 			ip.zero(st, key, t)
@@ -1125,8 +1240,18 @@ func (ip *Interp) eval(st *istate, e ast.Expr) IVal {
 		}
 		return IVal{K: 'u'}
 	case *ast.TypeAssertExpr:
-		ip.eval(st, x.X)
-		return IVal{K: 'u'}
+		v := ip.eval(st, x.X)
+		if x.Type == nil {
+			return IVal{K: 'u'}
+		}
+		val, ok := ip.assertType(v, info.TypeOf(x.Type))
+		if ok.K == 'b' && ok.I == 0 {
+			panic(crashErr{x, "interface conversion: type assertion fails"})
+		}
+		if ok.K != 'b' {
+			return IVal{K: 'u', Env: ok.Env}
+		}
+		return val
 	case *ast.FuncLit:
 		return IVal{K: 'f'}
 	case *ast.KeyValueExpr:
@@ -1138,12 +1263,15 @@ func (ip *Interp) eval(st *istate, e ast.Expr) IVal {
 // call evaluates a call and returns its results.
 func (ip *Interp) call(st *istate, call *ast.CallExpr) []IVal {
 	info := ip.info
+	if vals, ok := st.calls[call]; ok {
+		return vals
+	}
 	// conversion
 	if tv, ok := info.Types[call.Fun]; ok && tv.IsType() && len(call.Args) == 1 {
 		v := ip.eval(st, call.Args[0])
 		if bt := basicInt(tv.Type); bt != nil {
 			if v.K == 'i' {
-				return []IVal{{K: 'i', I: wrap(v.I, bt, ip.F.Pkg.TypesSizes), Typ: bt}}
+				return []IVal{{K: 'i', I: wrap(v.I, bt, ip.cf.Pkg.TypesSizes), Typ: bt}}
 			}
 			return []IVal{{K: 'u', Env: v.Env && v.K == 'u', Typ: bt}}
 		}
@@ -1196,8 +1324,10 @@ func (ip *Interp) call(st *istate, call *ast.CallExpr) []IVal {
 			}
 			return []IVal{{K: 'e'}}
 		case "copy":
-			for _, a := range call.Args {
-				ip.eval(st, a)
+			for i, a := range call.Args {
+				if v := ip.eval(st, a); i == 0 && v.Ref != "" && v.K == 's' {
+					ip.dropElems(st, v.Ref)
+				}
 			}
 			return []IVal{{K: 'u'}}
 		case "append":
@@ -1213,7 +1343,7 @@ func (ip *Interp) call(st *istate, call *ast.CallExpr) []IVal {
 			}
 			return []IVal{{K: 's', L: -1, C: -1}}
 		case "panic":
-			panic(unsupportedErr{"explicit panic at " + ip.F.At(call)})
+			panic(unsupportedErr{"explicit panic at " + ip.cf.At(call)})
 		case "new":
 			return []IVal{{K: 'e'}}
 		}
@@ -1242,6 +1372,10 @@ func (ip *Interp) call(st *istate, call *ast.CallExpr) []IVal {
 	args := make([]IVal, len(call.Args))
 	for i, a := range call.Args {
 		args[i] = ip.eval(st, a)
+		// a callee that is not followed may write the slice
+		if args[i].K == 's' && args[i].Ref != "" {
+			ip.dropElems(st, args[i].Ref)
+		}
 	}
 	sig, _ := info.TypeOf(call.Fun).Underlying().(*types.Signature)
 	nres := 0
@@ -1261,7 +1395,7 @@ func (ip *Interp) call(st *istate, call *ast.CallExpr) []IVal {
 				if v, ok := ip.Input(key, sig.Results().At(0).Type()); ok {
 					if v.K == 'i' {
 						v.Typ = bt
-						v.I = wrap(v.I, bt, ip.F.Pkg.TypesSizes)
+						v.I = wrap(v.I, bt, ip.cf.Pkg.TypesSizes)
 					}
 					return []IVal{v}
 				}
@@ -1288,7 +1422,7 @@ func (ip *Interp) call(st *istate, call *ast.CallExpr) []IVal {
 	q := QualName(callee)
 	switch q {
 	case "errors.New", "fmt.Errorf":
-		return []IVal{{K: 'e'}}
+		return []IVal{{K: 'e', Lib: true}}
 	}
 	out := make([]IVal, nres)
 	env := false
@@ -1312,7 +1446,7 @@ func (ip *Interp) call(st *istate, call *ast.CallExpr) []IVal {
 	// value; leave unknown (environment)
 	// callee summary: facts that must hold for a nil error
 	if ip.Sums != nil && nres > 0 {
-		if cf := ip.F.CalleeFunc(call); cf != nil && cf.Decl != nil {
+		if cf := ip.cf.CalleeFunc(call); cf != nil && cf.Decl != nil {
 			if sum := ip.Sums(cf); sum != nil && len(sum.Params) == len(args) {
 				for _, f := range sum.OnNil {
 					if v, ok := evalFact(f, sum.Params, args); ok && !v {
@@ -1397,4 +1531,328 @@ func evalFact(f *BFact, params []*types.Var, args []IVal) (val, ok bool) {
 		return a != b, true
 	}
 	return false, false
+}
+
+// assertType evaluates v.(T): the asserted value and the ok flag.
+func (ip *Interp) assertType(v IVal, T types.Type) (val, ok IVal) {
+	no := IVal{K: 'b', I: 0}
+	zero := IVal{K: 'u'}
+	if bt := basicInt(T); bt != nil {
+		zero = IVal{K: 'i', Typ: bt}
+	}
+	if T == nil {
+		return IVal{K: 'u'}, IVal{K: 'u'}
+	}
+	_, tIface := T.Underlying().(*types.Interface)
+	switch v.K {
+	case 'n':
+		return zero, no
+	case 'i':
+		if v.Dyn == nil {
+			return IVal{K: 'u'}, IVal{K: 'u'}
+		}
+		hit := types.Identical(v.Dyn, T)
+		if tIface {
+			hit = types.Implements(v.Dyn, T.Underlying().(*types.Interface))
+		}
+		if hit {
+			return v, IVal{K: 'b', I: 1}
+		}
+		return zero, no
+	case 'e':
+		// values made by errors.New / fmt.Errorf are never of a module type
+		if v.Lib && !tIface {
+			if n, isNamed := types.Unalias(T).(*types.Named); isNamed && n.Obj().Pkg() != nil && strings.HasPrefix(n.Obj().Pkg().Path(), ModPath) {
+				return zero, no
+			}
+		}
+	case 'u':
+		return IVal{K: 'u', Env: v.Env}, IVal{K: 'u', Env: v.Env}
+	}
+	return IVal{K: 'u'}, IVal{K: 'u'}
+}
+
+// returnValues evaluates the results of a return statement (nil: the
+// function fell off its end); named results are read for a bare return.
+func (ip *Interp) returnValues(st *istate, ret *ast.ReturnStmt) []IVal {
+	var named []*ast.Ident
+	if ip.cf.Type != nil && ip.cf.Type.Results != nil {
+		for _, fl := range ip.cf.Type.Results.List {
+			named = append(named, fl.Names...)
+		}
+	}
+	if ret == nil || len(ret.Results) == 0 {
+		var out []IVal
+		for _, nm := range named {
+			out = append(out, ip.eval(st, nm))
+		}
+		return out
+	}
+	if len(ret.Results) == 1 {
+		if call, ok := ast.Unparen(ret.Results[0]).(*ast.CallExpr); ok {
+			if tv, isT := ip.info.Types[call.Fun]; !isT || !tv.IsType() {
+				vals := ip.call(st, call)
+				if len(vals) > 0 {
+					return vals
+				}
+				return []IVal{{K: 'u'}}
+			}
+		}
+	}
+	out := make([]IVal, len(ret.Results))
+	for i, r := range ret.Results {
+		out[i] = ip.eval(st, r)
+	}
+	return out
+}
+
+// inlinable reports whether the call is evaluated in line.
+func (ip *Interp) inlinable(call *ast.CallExpr) *Func {
+	if ip.depth >= 4 {
+		return nil
+	}
+	if tv, ok := ip.info.Types[call.Fun]; ok && tv.IsType() {
+		return nil
+	}
+	fn, ok := Callee(ip.info, call).(*types.Func)
+	if !ok {
+		return nil
+	}
+	cf := ip.P.FuncOf(fn)
+	if cf == nil || cf.Decl == nil || cf.Body == nil || cf.Pkg != ip.F.Pkg {
+		return nil
+	}
+	if ip.NoInline != nil && ip.NoInline(cf) {
+		return nil
+	}
+	sig := fn.Type().(*types.Signature)
+	if sig.Variadic() && !call.Ellipsis.IsValid() {
+		// extra arguments are packed into a fresh slice
+	}
+	return cf
+}
+
+// inlineCalls evaluates the module calls contained in node n (not inside
+// function literals, not in the right operand of && / ||) and returns the
+// resulting states, each with the results cached for the evaluation of n.
+func (ip *Interp) inlineCalls(st *istate, n ast.Node) []*istate {
+	var calls []*ast.CallExpr
+	var visit func(x ast.Node, lazy bool)
+	visit = func(x ast.Node, lazy bool) {
+		switch y := x.(type) {
+		case nil:
+			return
+		case *ast.FuncLit:
+			return
+		case *ast.BinaryExpr:
+			if y.Op == token.LAND || y.Op == token.LOR {
+				visit(y.X, lazy)
+				visit(y.Y, true)
+				return
+			}
+		case *ast.DeferStmt, *ast.GoStmt:
+			return
+		case *ast.CallExpr:
+			visit(y.Fun, lazy)
+			for _, a := range y.Args {
+				visit(a, lazy)
+			}
+			if !lazy {
+				if _, done := st.calls[y]; !done && ip.inlinable(y) != nil {
+					calls = append(calls, y)
+				}
+			}
+			return
+		}
+		first := true
+		ast.Inspect(x, func(c ast.Node) bool {
+			if first {
+				first = false
+				return true
+			}
+			if c != nil {
+				visit(c, lazy)
+			}
+			return false
+		})
+	}
+	visit(n, false)
+	if len(calls) == 0 {
+		return []*istate{st}
+	}
+	states := []*istate{st}
+	for _, call := range calls {
+		var nextStates []*istate
+		for _, s := range states {
+			nextStates = append(nextStates, ip.invoke(s, call)...)
+		}
+		states = nextStates
+	}
+	return states
+}
+
+// invoke runs the callee of call in a new frame and returns one state per
+// outcome with the results cached under the call.
+func (ip *Interp) invoke(st *istate, call *ast.CallExpr) []*istate {
+	cf := ip.inlinable(call)
+	if cf == nil {
+		return []*istate{st}
+	}
+	info := ip.info
+	// hooks first: an overridden call is not evaluated in line
+	args := make([]IVal, len(call.Args))
+	for i, a := range call.Args {
+		args[i] = ip.eval(st, a)
+	}
+	if ip.OnCall != nil {
+		if event, over := ip.OnCall(call, args); event != "" || over != nil {
+			if event != "" {
+				n := len(st.trace)
+				if !(n >= 3 && st.trace[n-1] == event && st.trace[n-2] == event && st.trace[n-3] == event) {
+					st.trace = append(append([]string(nil), st.trace...), event)
+				}
+			}
+			sig, _ := info.TypeOf(call.Fun).Underlying().(*types.Signature)
+			if over == nil && sig != nil {
+				over = make([]IVal, sig.Results().Len())
+				for i := range over {
+					over[i] = IVal{K: 'u'}
+				}
+			}
+			if st.calls == nil {
+				st.calls = map[*ast.CallExpr][]IVal{}
+			}
+			st.calls[call] = over
+			return []*istate{st}
+		}
+	}
+	// receiver
+	var recv *IVal
+	var recvExpr ast.Expr
+	if sel, ok := ast.Unparen(call.Fun).(*ast.SelectorExpr); ok {
+		if s, ok := info.Selections[sel]; ok && s.Kind() == types.MethodVal {
+			recvExpr = sel.X
+			v := ip.eval(st, sel.X)
+			sig := s.Obj().Type().(*types.Signature)
+			_, wantPtr := sig.Recv().Type().(*types.Pointer)
+			_, havePtr := info.TypeOf(sel.X).Underlying().(*types.Pointer)
+			switch {
+			case wantPtr && !havePtr:
+				if key, _, ok := ip.lvalue(st, sel.X); ok {
+					v = IVal{K: 'p', Ref: key}
+				} else {
+					v = IVal{K: 'u'}
+				}
+			case !wantPtr && havePtr:
+				if v.K == 'p' {
+					v = IVal{K: 't', Ref: v.Ref}
+				}
+			}
+			recv = &v
+		}
+	}
+	_ = recvExpr
+	// new frame
+	saved := struct {
+		cf     *Func
+		prefix string
+		depth  int
+		info   *types.Info
+		g      *Graph
+		bnd    *Bounds
+	}{ip.cf, ip.prefix, ip.depth, ip.info, ip.g, ip.bnd}
+	callerPrefix := ip.prefix
+	framePrefix := fmt.Sprintf("%sc%d/", callerPrefix, call.Pos())
+	ip.prefix = framePrefix
+	ip.depth++
+	ip.enter(cf)
+	restore := func() {
+		ip.cf, ip.prefix, ip.depth, ip.info, ip.g, ip.bnd = saved.cf, saved.prefix, saved.depth, saved.info, saved.g, saved.bnd
+	}
+	sub := st.fork()
+	sub.calls = nil
+	// bind receiver and parameters
+	if recv != nil && cf.Decl.Recv != nil {
+		for _, fl := range cf.Decl.Recv.List {
+			for _, nm := range fl.Names {
+				if o := ip.info.Defs[nm]; o != nil {
+					ip.storeKey(sub, ip.varKey(o), o.Type(), *recv)
+				}
+			}
+		}
+	}
+	params := cf.Params()
+	sig := cf.Obj.Type().(*types.Signature)
+	for i, pv := range params {
+		var v IVal
+		switch {
+		case sig.Variadic() && i == len(params)-1 && !call.Ellipsis.IsValid():
+			n := int64(len(args) - i)
+			if n < 0 {
+				n = 0
+			}
+			v = IVal{K: 's', L: n, C: n}
+		case i < len(args):
+			v = args[i]
+		default:
+			v = IVal{K: 'u'}
+		}
+		ip.storeKey(sub, ip.varKey(pv), pv.Type(), v)
+	}
+	if len(ip.g.G.Blocks) == 0 {
+		restore()
+		return []*istate{st}
+	}
+	sub.blk, sub.idx = ip.g.G.Blocks[0], 0
+	exits := ip.runFrame(sub)
+	resTypes := sig.Results()
+	var out []*istate
+	for _, e := range exits {
+		s := e.st
+		vals := e.vals
+		for len(vals) < resTypes.Len() {
+			vals = append(vals, IVal{K: 'u'})
+		}
+		// struct results live in the callee's frame: move them to the caller
+		for i := range vals {
+			if vals[i].K == 't' && strings.HasPrefix(vals[i].Ref, framePrefix) && i < resTypes.Len() {
+				key := fmt.Sprintf("%sret%d.%d", callerPrefix, call.Pos(), i)
+				ip.storeKey(s, key, resTypes.At(i).Type(), vals[i])
+				vals[i] = IVal{K: 't', Ref: key}
+			}
+		}
+		for k := range s.heap {
+			if strings.HasPrefix(k, framePrefix) {
+				delete(s.heap, k)
+			}
+		}
+		s.blk, s.idx = st.blk, st.idx
+		s.calls = map[*ast.CallExpr][]IVal{}
+		for k, v := range st.calls {
+			s.calls[k] = v
+		}
+		s.calls[call] = vals
+		out = append(out, s)
+	}
+	restore()
+	return out
+}
+
+// dropElems forgets the remembered elements of a literal slice.
+func (ip *Interp) dropElems(st *istate, ref string) {
+	pre := ref + "["
+	for k := range st.heap {
+		if strings.HasPrefix(k, pre) {
+			delete(st.heap, k)
+		}
+	}
+}
+
+// SliceElem returns the remembered element i of a slice value in heap.
+func SliceElem(heap map[string]IVal, v IVal, i int64) (IVal, bool) {
+	if v.K != 's' || v.Ref == "" {
+		return IVal{}, false
+	}
+	e, ok := heap[fmt.Sprintf("%s[%d]", v.Ref, i)]
+	return e, ok
 }
